@@ -8,8 +8,6 @@ NA = {
  "C03": "exactness of schoolbook/Karatsuba recombination (carry chains, sign trick) is an arithmetic identity over all limb values, not a property of code shape",
  "C05": "agreement of shifts/bit scans with the binary expansion for every shift amount is a value relation (ladder correctness for non-power-of-two widths is arithmetic)",
  "C07": "canonical residue in [0,p) depends on numeric preconditions and borrow/carry arithmetic; no structural necessary condition beyond C15's forwarding exists",
- "C10": "is_some <=> gcd(a,m)=1 and a*x=1 are number-theoretic facts about divsteps and CRT recombination; iteration-bound sufficiency is a cited theorem, not a code shape",
- "C13": "two's-complement overflow reporting exactly when outside [MIN,MAX] is a value relation on sign bits and magnitudes",
  "C14": "n=q*d+r with the stated sign conventions for all sign combinations and MIN/-1 is arithmetic; the wrappers' forwarding is decided under C15",
  "C17": "canonical numerals, exact parse and the 2^BITS overflow boundary depend on digit-batching arithmetic and ilog values; the one shape-level clause (push_limb overflow flag is consumed) is decided under C16",
  "C20": "floor-sqrt for every x depends on Hast's iteration bound and Newton convergence (numerical)",
